@@ -751,10 +751,11 @@ struct Emitter {
     case Instruction::And: case Instruction::Or: case Instruction::Xor:
     case Instruction::FAdd: case Instruction::FSub: case Instruction::FMul: case Instruction::FDiv: case Instruction::FRem:
       // pointer difference: sub(ptrtoint a, ptrtoint b) is emitted as a C pointer subtraction, which CBMC folds to the offset difference for pointers into the
-      // same object (it does not simplify the integer form)
+      // same object (it does not simplify the integer form); for different objects C leaves the result undefined and CBMC makes it nondeterministic, whereas the
+      // machine code subtracts addresses (Queue::IsItemLocatedInThisContainer relies on that), so IR2C_PTRDIFF falls back to the integer views there
       if (I.getOpcode() == Instruction::Sub && T->isIntegerTy(64)) {
         auto *pa = dyn_cast<PtrToIntOperator>(I.getOperand(0)); auto *pb = dyn_cast<PtrToIntOperator>(I.getOperand(1));
-        if (pa && pb) { o += "  " + lhs + "((u64)(s64)((u8*)" + val(pa->getPointerOperand()) + " - (u8*)" + val(pb->getPointerOperand()) + "));\n"; break; }
+        if (pa && pb) { o += "  " + lhs + "IR2C_PTRDIFF(" + val(pa->getPointerOperand()) + ", " + val(pb->getPointerOperand()) + ");\n"; break; }
       }
       o += "  " + lhs + binop(I.getOpcode(), V(0), V(1), T) + ";\n";
       break;
